@@ -10,6 +10,7 @@ the field held before -/
 def Assign.result (isZero : V → Bool) (m : Mesh) (nv : Nat) : Assign V → M (NDA V)
   | .set l => asLeaf isZero l m nv
   | .upd s => updateValues isZero s m nv
+  | .setS s => asArray isZero s m nv
 
 /-- array of the last accepted assignment of a history (`acc` if there is none) -/
 def lastResult (isZero : V → Bool) (m : Mesh) (nv : Nat) (acc : Option (NDA V)) (ops : List (Assign V)) :
@@ -35,6 +36,9 @@ theorem step_eq (isZero : V → Bool) (f : VF V) (op : Assign V) :
   | upd s =>
     simp only [VF.step, VF.update, Assign.result]
     cases updateValues isZero s f.mesh f.nvdim <;> rfl
+  | setS s =>
+    simp only [VF.step, VF.setSpec, Assign.result]
+    cases asArray isZero s f.mesh f.nvdim <;> rfl
 
 theorem step_withData (isZero : V → Bool) (f : VF V) (acc : Option (NDA V)) (op : Assign V) :
     VF.step isZero (withData f acc) op = withData f (match Assign.result isZero f.mesh f.nvdim op with
@@ -67,6 +71,7 @@ theorem result_shape (isZero : V → Bool) (m : Mesh) (nv : Nat) (op : Assign V)
     split at h
     · cases h
     · exact asLeaf_shape isZero _ m nv a h
+  | setS s => exact asArray_shape_any isZero s m nv a h
 
 theorem lastResult_shape (isZero : V → Bool) (m : Mesh) (nv : Nat) (acc : Option (NDA V)) (ops : List (Assign V))
     (hacc : ∀ a, acc = some a → a.shape = m.n ++ [nv]) :
